@@ -43,7 +43,8 @@ def mods():
 
 
 FD_DTYPES = {"i8": np.int64, "i4": np.int32, "u1": np.uint8, "f8": np.float64}
-TA_DTYPES = {"f8": np.float64, "f4": np.float32, "i8": np.int64}
+TA_DTYPES = {"f8": np.float64, "f4": np.float32, "i8": np.int64, "u1": np.uint8,
+             "i1": np.int8, "i2": np.int16, "u2": np.uint16}
 
 
 def _layout(a, layout):
@@ -93,6 +94,13 @@ def make_grids(codes, field, nodata, fd_dtype="i8", ta_dtype="f8", layout="C",
         # goes cell by cell, by position)
         geo = {} if not other_geometry else {"cellsize": 0.25, "xllcorner": 1234.5,
                                              "yllcorner": -77.0}
+        if np.dtype(tdt).kind in "iu" and np.dtype(tdt).itemsize < 8:
+            ii = np.iinfo(tdt)
+            if not (np.all(f == np.round(f)) and f.min() >= ii.min and f.max() <= ii.max
+                    and ii.min <= nodata <= ii.max and nodata == int(nodata)):
+                tdt = np.float64      # the narrow type cannot hold the field / marker
+            else:
+                nodata = int(nodata)
         ta = g.Grid("ta", nc, nr, dtype=tdt, nodata=nodata, **geo)
         ta.data = _layout(f, layout)
         if bounded and hasattr(type(ta), "mindata"):
@@ -270,6 +278,33 @@ def run(ctx):
                                "nodata": 0.0, "fieldname": "default",
                                "max_accumulated_cells": int(rng.integers(1, 3))})
     ctx.info.setdefault("exhaustive_complete", True)
+    # masks and counts stored in narrow integer types, on catchments convergent enough
+    # for the totals to exceed what the type can hold (the totals are not cell values)
+    nnar = 6 if ctx.tier == "quick" else 120
+    for it in range(nnar):
+        if ctx.out_of_time():
+            break
+        j = it + ctx.shard
+        nr, nc = int(rng.integers(17, 26)), int(rng.integers(17, 26))
+        if j % 2:
+            codes = gen_forest(rng, nr, nc, j % 3)
+        else:                          # everything drains to the bottom-left corner
+            codes = np.full((nr, nc), 16, dtype=np.int64)
+            codes[:, 0] = 4
+            codes[nr - 1, 0] = 0
+        tdt = ["u1", "i2", "i1", "u2"][j % 4]
+        if tdt == "u1":
+            f, nd = rng.integers(0, 2, size=(nr, nc)), 255
+        elif tdt == "i1":
+            f, nd = rng.integers(0, 3, size=(nr, nc)), -128
+        elif tdt == "i2":
+            f, nd = rng.integers(90, 121, size=(nr, nc)), -9999
+        else:
+            f, nd = rng.integers(150, 400, size=(nr, nc)), 65535
+        ctx.tag("field:narrow-integer-type")
+        run_case(ctx, {"kind": "acc", "codes": codes.tolist(),
+                       "field": f.astype(float).tolist(), "nodata": float(nd),
+                       "fieldname": "narrow-" + tdt, "ta_dtype": tdt})
     nrand = 10 if ctx.tier == "quick" else 800
     for it in range(nrand):
         if ctx.out_of_time():
